@@ -123,6 +123,70 @@ class Inst(object):
         return 'Inst(%s)' % self.ci.name
 
 
+class TypeV(object):
+    """type(x) of a model value: its most specific class name."""
+
+    model_eq = True
+
+    def __init__(self, name):
+        self.name = name
+
+    def __eq__(self, o):
+        return isinstance(o, TypeV) and o.name == self.name
+
+    def __hash__(self):
+        return hash(('TypeV', self.name))
+
+    def __repr__(self):
+        return 'type(%s)' % self.name
+
+
+class GenV(object):
+    """A generator function call that has not started running."""
+
+    def __init__(self, func, scope):
+        self.func = func
+        self.scope = scope
+        self.cont = None
+
+    def __repr__(self):
+        return 'Generator(%s)' % self.func.name
+
+
+_GEN_CACHE = {}
+
+
+def _is_generator(node):
+    if isinstance(node, ast.Lambda):
+        return False
+    k = id(node)
+    if k not in _GEN_CACHE:
+        _GEN_CACHE[k] = _has_yield(node.body)
+    return _GEN_CACHE[k]
+
+
+def _has_yield(stmts):
+    todo = list(stmts)
+    while todo:
+        n = todo.pop()
+        if isinstance(n, (ast.Yield, ast.YieldFrom)):
+            return True
+        if isinstance(n, (ast.FunctionDef, ast.Lambda, ast.ClassDef,
+                          ast.AsyncFunctionDef)):
+            continue
+        todo.extend(ast.iter_child_nodes(n))
+    return False
+
+
+def _split_yield(stmts):
+    for i, st in enumerate(stmts):
+        if _has_yield([st]):
+            if isinstance(st, (ast.Expr, ast.Assign, ast.Try)):
+                return stmts[:i], st, stmts[i + 1:]
+            raise Undecided('yield inside %s' % type(st).__name__)
+    raise Undecided('generator without a yield statement')
+
+
 class ClassV(object):
     def __init__(self, ci):
         self.ci = ci
@@ -400,6 +464,9 @@ class Interp(object):
                 return self.ev(node.body, scope, func)
             if self.depth == 1:
                 self.last_scope = scope
+            if _is_generator(node):
+                # run lazily: only the context-manager protocol is modelled
+                return GenV(func, scope)
             try:
                 self.exec_block(node.body, scope, func)
             except _Return as r:
@@ -407,6 +474,68 @@ class Interp(object):
             return None
         finally:
             self.depth -= 1
+
+    # ---- generator based context managers -------------------------------
+    def cm_enter(self, g):
+        """Run a @contextmanager generator up to its (single, top-level or
+        try-level) yield; returns the yielded value."""
+        body = list(g.func.node.body)
+        pre, ys, post = _split_yield(body)
+        self.exec_block(pre, g.scope, g.func)
+        if isinstance(ys, ast.Try):
+            pre2, y2, post2 = _split_yield(list(ys.body))
+            try:
+                self.exec_block(pre2, g.scope, g.func)
+            except PyRaise:
+                self.exec_block(ys.finalbody, g.scope, g.func)
+                raise
+            g.cont = ('try', post2, ys, post)
+            ynode = y2
+        else:
+            g.cont = ('plain', post)
+            ynode = ys
+        yv = ynode.value
+        if not isinstance(yv, ast.Yield):
+            raise Undecided('unsupported yield statement')
+        val = None if yv.value is None else self.ev(yv.value, g.scope,
+                                                    g.func)
+        if isinstance(ynode, ast.Assign):
+            self.assign(ynode.targets[0], None, g.scope, g.func)
+        return val
+
+    def cm_exit(self, g, exc=None):
+        """Resume after the yield (normally, or with the PyRaise ``exc``
+        thrown in); returns True if the exception is suppressed."""
+        kind = g.cont[0]
+        try:
+            if kind == 'plain':
+                if exc is None:
+                    self.exec_block(g.cont[1], g.scope, g.func)
+                return False
+            _, post2, tr, post = g.cont
+            suppressed = False
+            try:
+                if exc is None:
+                    self.exec_block(post2, g.scope, g.func)
+                    self.exec_block(tr.orelse, g.scope, g.func)
+                else:
+                    for h in tr.handlers:
+                        names = None if h.type is None else (
+                            [ast.unparse(x) for x in h.type.elts]
+                            if isinstance(h.type, ast.Tuple)
+                            else [ast.unparse(h.type)])
+                        if names is None or exc.name in names or \
+                                'Exception' in names:
+                            self.exec_block(h.body, g.scope, g.func)
+                            suppressed = True
+                            break
+            finally:
+                self.exec_block(tr.finalbody, g.scope, g.func)
+            if exc is None or suppressed:
+                self.exec_block(post, g.scope, g.func)
+            return suppressed
+        except _Return:
+            return False
 
     def call(self, f, args, kwargs, node=None):
         if self.hooks is not None:
@@ -1091,11 +1220,31 @@ class Interp(object):
             self.exec_block(s.finalbody, scope, func)
             return
         if isinstance(s, ast.With):
+            gens = []
             for it in s.items:
                 v = self.ev(it.context_expr, scope, func)
+                if isinstance(v, GenV):
+                    g = v
+                    v = self.cm_enter(g)
+                    gens.append(g)
                 if it.optional_vars is not None:
                     self.assign(it.optional_vars, v, scope, func)
-            self.exec_block(s.body, scope, func)
+            try:
+                self.exec_block(s.body, scope, func)
+            except PyRaise as e:
+                for g in reversed(gens):
+                    if self.cm_exit(g, e):
+                        e = None
+                        break
+                if e is not None:
+                    raise
+            except (_Return, _Break, _Continue):
+                for g in reversed(gens):
+                    self.cm_exit(g)
+                raise
+            else:
+                for g in reversed(gens):
+                    self.cm_exit(g)
             return
         if isinstance(s, ast.Delete):
             return
@@ -1186,6 +1335,13 @@ class Interp(object):
             if isinstance(obj, dict):
                 obj[idx] = v
                 return
+            if isinstance(obj, Inst):
+                hit = self.model.lookup(obj.ci, '__setitem__')
+                if hit is not None and hit[1] is not None:
+                    dc, m = hit
+                    self.call_func(Func(m, self.method_env(obj, dc), dc),
+                                   [idx, v], {}, obj)
+                    return
             raise Undecided('subscript store %s' % ast.unparse(t))
         raise Undecided('assignment target %s' % ast.unparse(t))
 
@@ -1890,6 +2046,9 @@ class Interp(object):
             v = args[0]
             if isinstance(v, Inst):
                 return ClassV(v.ci)
+            names = getattr(v, 'isinstance_names', None)
+            if names:
+                return TypeV(names[0])
             return Opaque('type')
         if name == 'str' or name == 'repr':
             return args[0] if args and isinstance(args[0], str) else '<str>'
@@ -1942,18 +2101,50 @@ class Interp(object):
         if name == 'print':
             return None
         if name == 'iter':
+            if is_scalar(args[0]) or isinstance(args[0], bool) or \
+                    args[0] is None:
+                raise PyRaise('TypeError')
             return args[0]
         if name == 'id':
             return id(args[0])
         raise Undecided('builtin %s%r' % (name, tuple(args)))
 
     def isinstance(self, v, clsnode, scope, func):
-        names = [ast.unparse(e).split('.')[-1] for e in (
-            clsnode.elts if isinstance(clsnode, ast.Tuple) else [clsnode])]
-        for nm in names:
-            if self._isinst1(v, nm):
+        elts = clsnode.elts if isinstance(clsnode, ast.Tuple) else [clsnode]
+        for e in elts:
+            dynamic = not isinstance(e, (ast.Name, ast.Attribute)) or (
+                isinstance(e, ast.Name) and scope is not None and
+                scope.has(e.id) and e.id not in self.model.classes)
+            if dynamic:
+                # a computed class (type(self), a local tuple of types ...)
+                for c in self._flat_types(self.ev(e, scope, func)):
+                    if self._isinst_value(v, c):
+                        return True
+                continue
+            if self._isinst1(v, ast.unparse(e).split('.')[-1]):
                 return True
         return False
+
+    def _flat_types(self, c):
+        if isinstance(c, (tuple, list)):
+            out = []
+            for x in c:
+                out.extend(self._flat_types(x))
+            return out
+        return [c]
+
+    def _isinst_value(self, v, c):
+        if isinstance(c, ClassV):
+            return self._isinst1(v, c.ci.name)
+        if isinstance(c, TypeV):
+            return self._isinst1(v, c.name)
+        if isinstance(c, Opaque) and c.desc.startswith('np.'):
+            return self._isinst1(v, c.desc[3:])
+        if isinstance(c, Builtin) and c.name in ('int', 'float', 'complex',
+                                                 'str', 'bool', 'tuple',
+                                                 'list', 'dict'):
+            return self._isinst1(v, c.name)
+        raise Undecided('isinstance(_, %r)' % (c,))
 
     def _isinst1(self, v, nm):
         names = getattr(v, 'isinstance_names', None)
